@@ -715,15 +715,20 @@ fn batch_main(input: &str, output: &str) {
     for line in docs.lines() {
         let v: Value = serde_json::from_str(line).expect("batch line");
         let (kind, text) = (v[0].as_str().unwrap_or(""), v[1].as_str().unwrap_or(""));
-        unsafe {
-            libc::alarm(per_doc_secs);
-        }
+        // CPU-time limit (a busy machine must not look like a hang) with a generous wall-clock backstop
+        let arm = |secs: u32| unsafe {
+            let tv = libc::itimerval {
+                it_interval: libc::timeval { tv_sec: 0, tv_usec: 0 },
+                it_value: libc::timeval { tv_sec: secs as libc::time_t, tv_usec: 0 },
+            };
+            libc::setitimer(libc::ITIMER_PROF, &tv, std::ptr::null_mut());
+            libc::alarm(if secs == 0 { 0 } else { secs * 12 });
+        };
+        arm(per_doc_secs);
         MAX_REQ.store(0, Ordering::Relaxed);
         let r = guarded(|| handle_doc(kind, text));
         let max_req = MAX_REQ.load(Ordering::Relaxed);
-        unsafe {
-            libc::alarm(0);
-        }
+        arm(0);
         let line = match r {
             Ok(s) => format!("{s} {max_req}"),
             Err(()) => format!("panic {}", LAST_PANIC.lock().map(|m| m.clone()).unwrap_or_default()),
@@ -782,7 +787,8 @@ fn run_children(workdir: &std::path::Path, docs: &[(String, String)], doc_secs: 
                 Ok(s) => {
                     use std::os::unix::process::ExitStatusExt;
                     match s.signal() {
-                        Some(14) => format!("no answer within {doc_secs} s (SIGALRM)"),
+                        Some(27) => format!("no answer within {doc_secs} s of CPU time (SIGPROF)"),
+                        Some(14) => format!("no answer within {} s (SIGALRM)", doc_secs * 12),
                         Some(sig) => format!("killed by signal {sig}"),
                         None => format!("exit status {:?}", s.code()),
                     }
